@@ -825,7 +825,9 @@ pub fn one_case(ctx: &Ctx, i: usize, id: String, stream_name: &str) -> Case {
                     let tok = nb[&ord];
                     let r = guarded(|| snd.pcm_xfer_ok(tok));
                     let rs = res_unit(r);
-                    if rs == "ok" {
+                    // the transfer is consumed when the completion was popped: on success and (since fix
+                    // 097f5f5, which makes pcm_xfer_ok check the device's status) on `IoError`
+                    if rs == "ok" || rs == "err IoError" {
                         nb.remove(&ord);
                     }
                     (format!("snd xfer_ok tok={}", ord), rs)
